@@ -157,7 +157,7 @@ func projectVector(fam string, lvl byte, s string) string {
 // deep = also views, projections and the re-decode (only meaningful for accepted strings).
 func decodeFull(fam string, lvl byte, raw string, deep bool) (ev *decEvent) {
 	ev = &decEvent{K: "dec", Fam: fam, Lvl: string(lvl), S: asciiSafe(raw), Sent: []string{}}
-	if len(raw) > 300 {
+	if len(raw) > 1500 {
 		// too long for the trace: identified by length and hash; only panic / object-xor-error are judged
 		h := fnv.New64a()
 		h.Write([]byte(raw))
@@ -180,7 +180,10 @@ func decodeFull(fam string, lvl byte, raw string, deep bool) (ev *decEvent) {
 		}
 		ev.Ver = v3VerLabel(o.b.Ver)
 		ev.F = v3FieldsOf(o, lvl)
-		ev.Own = v3OwnView(o, lvl)
+		viewsFirst := deep && len(raw)%2 == 1 // vary the order in which the object and its views are queried
+		if !viewsFirst {
+			ev.Own = v3OwnView(o, lvl)
+		}
 		if deep {
 			ev.Views = map[string]*view{}
 			ev.Proj = map[string]*proj{}
@@ -210,6 +213,9 @@ func decodeFull(fam string, lvl byte, raw string, deep bool) (ev *decEvent) {
 					p.V = mkView(po.t, po.t.Severity().String())
 				}
 				ev.Proj["T"] = p
+			}
+			if viewsFirst {
+				ev.Own = v3OwnView(o, lvl)
 			}
 			ev.Re = &redec{}
 			if ro, err := v3Decode(lvl, unescape(ev.Own.Enc)); err == nil {
@@ -459,6 +465,7 @@ func cmdLang(args []string) {
 	deepAll := fs.Bool("deep", true, "record views / projections / re-decode for accepted strings")
 	nilrecv := fs.Bool("nilrecv", false, "decode every input through nil receivers as well (C12)")
 	long := fs.Int("long", 0, "number of long pathological inputs (up to 8 MiB, thousands of separators)")
+	allbt := fs.Bool("allbt", false, "add every base x temporal vector of the family (v2: all 73,629; v3: every base vector with seeded temporal values)")
 	nsteps := fs.Int("steps", 0, "number of inputs whose decodeOne call sequence is recorded through the hook")
 	fs.Parse(args)
 	var inputs []string
@@ -519,7 +526,57 @@ func cmdLang(args []string) {
 	for i := 0; i < *nbytes; i++ {
 		inputs = append(inputs, randBytes(rng))
 	}
+	if *allbt {
+		if *fam == "v2" {
+			for bi := 0; bi < v2Count(0, 6); bi++ {
+				var v v2Vec
+				v2SetFromIndex(&v, 0, 6, bi)
+				inputs = append(inputs, v2String(&v, false, false))
+				for ti := 0; ti < v2Count(6, 9); ti++ {
+					v2SetFromIndex(&v, 6, 9, ti)
+					inputs = append(inputs, v2String(&v, true, false))
+					if (bi+ti)%7 == 0 {
+						for i := 9; i < 14; i++ {
+							v[i] = uint8(rng.Intn(len(v2Defs[i].Codes)))
+						}
+						inputs = append(inputs, v2String(&v, true, true))
+					}
+				}
+			}
+		} else {
+			for bi := 0; bi < v3BaseCount()*2; bi++ {
+				var v v3Vec
+				v3SetFromIndex(&v, 0, 8, bi/2)
+				ver := v3Versions[bi%2].Label
+				inputs = append(inputs, v3Join(ver, v3Tokens(&v, 8, 0)))
+				for k := 0; k < 3; k++ {
+					randHigher(rng, &v, 8, 11)
+					inputs = append(inputs, v3Join(ver, v3Tokens(&v, 11, 0)))
+				}
+				randHigher(rng, &v, 8, 22)
+				inputs = append(inputs, v3Join(ver, permuteMaybe(rng, v3Tokens(&v, 22, xMask(&v, 8, 22)&uint32(rng.Int63())))))
+			}
+		}
+	}
 	inputs = append(inputs, pathological...)
+	// long lists of well-formed tokens: a valid vector of each level followed by k surplus tokens of one kind
+	{
+		bases := map[string][]string{
+			"v3": {"CVSS:3.1/AV:N/AC:L/PR:N/UI:N/S:U/C:H/I:H/A:H", "CVSS:3.0/AV:N/AC:L/PR:N/UI:N/S:U/C:H/I:H/A:H/E:F/RL:O/RC:C",
+				"CVSS:3.1/AV:N/AC:L/PR:N/UI:N/S:U/C:H/I:H/A:H/E:F/RL:O/RC:C/CR:H/IR:M/AR:L/MAV:A/MAC:H/MPR:L/MUI:R/MS:C/MC:L/MI:N/MA:H"},
+			"v2": {"AV:N/AC:L/Au:N/C:P/I:P/A:C", "AV:N/AC:L/Au:N/C:P/I:P/A:C/E:F/RL:W/RC:C", "AV:N/AC:L/Au:N/C:C/I:C/A:C/E:F/RL:W/RC:C/CDP:H/TD:H/CR:M/IR:M/AR:H"},
+		}[*fam]
+		extras := []string{"XX:N", "E:X", "MAV:N", "av:N", "CDP:H", "Q:1", "ZZZ:ZZZ"}
+		for _, b := range bases {
+			for _, x := range extras {
+				for _, k := range []int{1, 2, 5, 8, 9, 10, 11, 14, 15, 16, 17, 20, 21, 22, 23, 24, 25, 29, 30, 31, 32, 33, 34, 40, 63, 64, 65, 100, 127, 128, 129} {
+					if s := b + strings.Repeat("/"+x, k); len(s) <= 1500 {
+						inputs = append(inputs, s)
+					}
+				}
+			}
+		}
+	}
 	for i := 0; i < *long; i++ {
 		var s string
 		valid := "CVSS:3.1/AV:N/AC:L/PR:N/UI:N/S:U/C:H/I:H/A:H"
@@ -590,7 +647,7 @@ func cmdLang(args []string) {
 			step = 1
 		}
 		for i := 0; i < len(inputs); i += step {
-			if len(inputs[i]) > 300 {
+			if len(inputs[i]) > 1500 {
 				continue
 			}
 			for _, lvl := range lvls {
